@@ -68,6 +68,23 @@ class Aw:
         return self.coro.__await__()
 
 
+@context_teardown
+async def _shared_teardown_gen(h: Any, spec: dict, cid: str):  # type: ignore[no-untyped-def]
+    """ONE decorated function started many times (like the start() of a component class
+    with several instances): every call owns its own generator."""
+    sim = h.sim
+    await h.pre_steps(spec, cid)
+    exc = yield
+    h._cb_start(spec, cid, (exc,))
+    try:
+        await h.cb_steps(spec, cid, (exc,))
+    except BaseException as e:
+        sim.log("cb_end", cb=spec["id"], ctx=cid, how="cancel" if is_cancel(e) else "raise", exc=describe(e))
+        raise
+    else:
+        sim.log("cb_end", cb=spec["id"], ctx=cid, how="return", exc=None)
+
+
 class FalsyContext(Context):
     """A Context subclass that happens to be falsy (it has a length - of 0): still a perfectly
     good context.  Anything that decides "is there a context / a parent" by truthiness
@@ -363,6 +380,37 @@ class H:
             finally:
                 done.set()
 
+    async def corrupt_orphan(self, spec: dict) -> None:
+        """The open child was entered by a helper task that has ended; nobody holds a
+        reference to it any more and a garbage collection has run: it is still an open
+        child of its parent."""
+        import gc
+
+        sim = self.sim
+        p = _mk(spec.get("falsy_parent"))
+        self.know(p, spec["pid"])
+        await p.__aenter__()
+        sim.log("corrupt_begin", p=spec["pid"], c=spec["cid"], parent=spec["pid"], root=p.parent is None, how="orphan")
+
+        async def helper() -> None:
+            c = Context()
+            await c.__aenter__()
+
+        async with create_task_group() as tg:
+            tg.start_soon(helper, name="w:orphan_owner")
+        gc.collect()
+        try:
+            await p.__aexit__(None, None, None)
+        except BaseException as e:
+            sim.log(
+                "corrupt_exit", p=spec["pid"], exc=describe(e), cls=type(e).__name__, closed=p.closed,
+                root=p.parent is None, how="orphan", reported=_mentions_corruption(e),
+            )
+            if contains_cancel(e):
+                raise
+        else:
+            sim.log("corrupt_exit", p=spec["pid"], exc=None, cls=None, closed=p.closed, root=p.parent is None, how="orphan", reported=False)
+
     async def corrupt_mid(self, spec: dict) -> None:
         """The parent's block is left while a child - entered and left in *another task* - is
         in the middle of its teardown (suspended inside an awaiting teardown callback): the
@@ -434,6 +482,9 @@ class H:
         how = spec.get("how", "clean")
         if how == "mid_teardown":
             await self.corrupt_mid(spec)
+            return
+        if how == "orphan":
+            await self.corrupt_orphan(spec)
             return
         p = _mk(spec.get("falsy_parent"))
         self.know(p, spec["pid"])
@@ -693,6 +744,10 @@ class H:
                 import functools
 
                 obj = functools.partial(obj)
+            elif wrap == "falsy":
+                # ... that is falsy on top of it (a callable collection of clean-up steps
+                # that is still empty): "was a callback given" is not a truth test
+                type(obj).__len__ = lambda self_: 0  # type: ignore[attr-defined]
             return obj
         return f
 
@@ -760,6 +815,10 @@ class H:
         async def gen_body(exc_holder: list) -> None:
             pass
 
+        if route == "tdf" and spec.get("shared"):
+            await _shared_teardown_gen(h, spec, cid)
+            sim.log("reg", ctx=cid, cb=spec["id"], route=route)
+            return
         if route == "tdf":
 
             if spec.get("inner_ctx"):
@@ -1258,6 +1317,8 @@ def oracle(sim: Sim, plan: dict) -> list[dict]:
                 key = "silent"
                 if d.get("how") == "mid_teardown":
                     key = "silent_mid_teardown"
+                elif d.get("how") == "orphan":
+                    key = "silent_orphan"
                 elif d.get("root") and d.get("how") != "clean":
                     key = "silent_root_failing_exit"
                 v(
@@ -1317,6 +1378,8 @@ class G:
             if rng.random() < 0.15 and depth < 2:
                 pre.append(["reg", self.cb(depth + 1, in_teardown=in_teardown)])
             spec["pre"] = pre
+            if route == "tdf" and rng.random() < 0.5:
+                spec["shared"] = True
         else:
             kind = pick(rng, {"sync": 3, "async": 4, "sync_aw": 1.2, "aw_obj": 0.5})
             spec["pexc"] = route in ("ctx", "mod") and rng.random() < 0.45
@@ -1326,7 +1389,7 @@ class G:
         if route in ("res", "modres") and rng.random() < 0.2:
             spec["dup"] = rng.choice(("conflict", "conflict", "bad_name"))
         if route in ("ctx", "mod", "res", "modres") and kind in ("sync", "async") and rng.random() < 0.12:
-            spec["wrap"] = rng.choice(("obj", "partial"))
+            spec["wrap"] = rng.choice(("obj", "partial", "falsy"))
         body: list = []
         is_async = kind != "sync"
         n = rng.randint(0, 3)
@@ -1613,7 +1676,7 @@ def gen_c13(g: G) -> dict:
                                 {
                                     "pid": f"x{g.nctx - 1}",
                                     "cid": f"x{g.nctx}",
-                                    "how": rng.choice(("clean", "clean", "exception", "base_exception", "mid_teardown", "mid_teardown")),
+                                    "how": rng.choice(("clean", "clean", "exception", "base_exception", "mid_teardown", "mid_teardown", "orphan")),
                                     "falsy_parent": rng.random() < 0.15,
                                     "gap": [rng.choice((0, 1, 2)), rng.choice((0.0, 0.0, 0.5))],
                                 },
